@@ -30,9 +30,15 @@ def run(ctx, known, total, prop, runs_per_proc, stage_name=None):
             os.makedirs(corpus)
             cmd = [sys.executable, "-m", "checks.atheris_target", prop, out, corpus, "-runs=%d" % runs_per_proc,
                    "-seed=%d" % (derive_seed(ctx.seed, "atheris", i) % (2 ** 31 - 1) + 1), "-max_len=4096", "-len_control=0", "-print_final_stats=1"]
-            procs.append(subprocess.Popen(cmd, cwd=VERIF, env=env, stdout=subprocess.DEVNULL, stderr=subprocess.PIPE))
-        for p in procs:
-            _, err = p.communicate(timeout=6 * 3600)
+            # stderr goes to a file: a pipe that is read one process after the other blocks the others once it is full
+            errf = open(os.path.join(out, "stderr%d.log" % i), "wb")
+            procs.append((subprocess.Popen(cmd, cwd=VERIF, env=env, stdout=subprocess.DEVNULL, stderr=errf), errf))
+        for i, (p, errf) in enumerate(procs):
+            p.wait(timeout=6 * 3600)
+            errf.close()
+            with open(os.path.join(out, "stderr%d.log" % i), "rb") as f:
+                f.seek(max(0, os.path.getsize(f.name) - 65536))
+                err = f.read()
             m = re.findall(r"cov: (\d+)", err.decode("utf-8", "replace"))
             if m:
                 info["edges_covered_max"] = max(info["edges_covered_max"], int(m[-1]))
